@@ -230,6 +230,13 @@ func runCheck(id, tier string, seed int, overlay map[string][]byte, writeEvidenc
 	// those callees are verified here as well (transitively). A callee all of whose clauses are `trusts` has nothing to
 	// verify and stays an assumption (listed under trusted_clauses).
 	autoCone := map[string]bool{}
+	// a function that the property file lists is part of the property's cone by declaration: its untagged clauses count
+	// for this property whatever its own `props` line says (clause-level [Cxx] tags stay exclusive)
+	for _, f := range prop.Funcs {
+		if k := resolveFuncArgQuiet(w, f); k != "" {
+			autoCone[shortKey(k)] = true
+		}
+	}
 	if !prop.NoCone {
 		listed := map[string]bool{}
 		for _, f := range prop.Funcs {
